@@ -290,7 +290,9 @@ impl liquid::partials::PartialSource for Src {
 
 // ------------------------------------------------------------------ the shared world and the operations
 
-const PARTIALS: [(&str, &str); 7] = [
+const PARTIALS: [(&str, &str); 8] = [
+    // recurses 64 levels through include: every level holds its own handle on the one compiled partial
+    ("rec", "{% assign d = d | plus: 1 %}{% if d < 64 %}{% include 'rec' %}{% else %}bottom{{ d }}{% endif %}"),
     ("m", "m{% cycle 'a', 'b' %}"),
     // `m` exists in both spellings, `r` only with the extension that `render` falls back to
     ("m.liquid", "m-with-extension"),
@@ -301,7 +303,7 @@ const PARTIALS: [(&str, &str); 7] = [
     ("boom", "pre{% yield %}{{ undefined_in_partial }}post"),
 ];
 
-const TEMPLATES: [&str; 13] = [
+const TEMPLATES: [&str; 14] = [
     // 0: includes the lazily compiled partial twice
     "A{% yield %}{% include 'p' %}{% yield %}{% increment c %}{% yield %}{% include 'p' %}",
     // 1: broken partial
@@ -334,6 +336,9 @@ const TEMPLATES: [&str; 13] = [
     // 12: a render tag whose partial name is dynamic and resolves differently per data object (bare name that
     //     also exists with the extension / name that exists only with the extension), executed twice per render
     "{% for k in (1..2) %}{% render rwhich %}{% yield %}{% endfor %}",
+    // 13: a partial that includes itself 64 levels deep (anything counted per shared partial - handles, depth,
+    //     budgets - adds up across the threads rendering it at the same time)
+    "{% assign d = 0 %}{% include 'rec' %}|{{ d }}",
 ];
 
 const DEEP_IDX: usize = TEMPLATES.len();
@@ -506,6 +511,7 @@ fn harnesses() -> Vec<Harness> {
         Harness { name: "H12", what: "two threads parse *different* texts with the shared parser, each twice (anything the parser remembers between parse calls must be keyed correctly and updated atomically)", plan: vec![vec![Op::ParseRender(6), Op::ParseRender(6)], vec![Op::ParseRender(10), Op::ParseRender(10)]] },
         Harness { name: "H13", what: "two threads parse (then render) a template nested 64 blocks deep with the shared parser at once (per-parse counters, limits or pools kept where all parses through one parser see them)", plan: vec![vec![Op::ParseRender(DEEP_IDX)], vec![Op::ParseRender(DEEP_IDX)]] },
         Harness { name: "H14", what: "one template whose render tag names its partial dynamically: one data object names a partial stored under both spellings, the other a partial stored only with the extension (anything the tag learns about name resolution in one execution must not steer another)", plan: vec![vec![Op::Render(12)], vec![Op::RenderB(12)]] },
+        Harness { name: "H15", what: "two threads render a template whose partial includes itself 64 levels deep (per-partial counts such as handle counts or nesting budgets must not add up across threads)", plan: vec![vec![Op::Render(13)], vec![Op::Render(13)]] },
         Harness { name: "H5", what: "a render that fails midway (partial error, missing partial) while another renders", plan: vec![vec![Op::Render(4)], vec![Op::Render(3)], vec![Op::Render(5)]] },
     ]
 }
@@ -793,7 +799,7 @@ fn main() {
     // counterexample found has the fewest preemptions
     let tasks: Vec<(usize, usize, bool)> = if tier.thorough() {
         let mut t = vec![(0, 0, true)];
-        for (hi, maxb) in [(1usize, 5usize), (2, 4), (3, 4), (4, 3), (5, 4), (6, 5), (7, 3), (8, 3), (9, 2), (10, 3), (11, 3), (12, 3), (13, 3), (14, 3)] {
+        for (hi, maxb) in [(1usize, 5usize), (2, 4), (3, 4), (4, 3), (5, 4), (6, 5), (7, 3), (8, 3), (9, 2), (10, 3), (11, 3), (12, 3), (13, 3), (14, 2), (15, 3)] {
             for b in 0..=maxb {
                 t.push((hi, b, false));
             }
@@ -801,7 +807,7 @@ fn main() {
         t
     } else {
         let mut t = vec![];
-        for (hi, maxb) in [(0usize, 3usize), (1usize, 2usize), (2, 2), (3, 2), (4, 1), (5, 2), (6, 2), (7, 1), (8, 2), (9, 1), (10, 2), (11, 2), (12, 2), (13, 2), (14, 1)] {
+        for (hi, maxb) in [(0usize, 3usize), (1usize, 2usize), (2, 2), (3, 2), (4, 1), (5, 2), (6, 2), (7, 1), (8, 2), (9, 1), (10, 2), (11, 2), (12, 2), (13, 2), (14, 1), (15, 1)] {
             for b in 0..=maxb {
                 t.push((hi, b, false));
             }
